@@ -125,6 +125,8 @@ def judgeC07 (cfg : Cfg) (js : JState) (f : Bytes) (r : Option Bytes) : JState Ã
     let rt : Option Bytes := r.bind replyTcp
     if r.isSome âˆ§ rt.isNone then (js', failv "reply to a TCP segment is not TCP")
     else if meets e rt then (js', pass true)
+    else if js.validated.any (fun g => g â‰  fl âˆ§ flowCookie cfg g = flowCookie cfg fl) then
+      (js', failv "segment judged through another flow's table entry (cookie collision)")
     else (js', failv "segment answered differently from the reference connection model")
 
 def dedup (l : List Nat) : List Nat := l.foldl (fun acc x => if acc.contains x then acc else acc ++ [x]) []
